@@ -52,7 +52,8 @@ func (s *Stash) LoadExpanded(filename string) {
 			}
 			panic(err)
 		}
-		if 0 < len(line) {
+		// An empty line separates forms, inside a form it is part of the form.
+		if 0 < len(line) || 0 < len(form) {
 			if bytes.ContainsRune(line, '\t') {
 				for _, sub := range bytes.Split(line, []byte{'\t'}) {
 					buf = append(buf, sub...)
